@@ -50,6 +50,11 @@ pub fn param(r: &mut Rng, d: Dim) -> String {
         9 => format!("{}", d.cols),
         10 => format!("{}", d.cols + 1),
         11 => (*r.pick(&["255", "256", "65535", "65536", "99999", "300"])).into(),
+        12 => {
+            // a parameter with sub-parameters (vte keeps them in one slot; vt100 reads the first)
+            let base = r.below(u64::from(d.rows.max(d.cols)) + 3);
+            if r.chance(1, 2) { format!("{}:{}", base, r.below(4)) } else { format!("{}:{}:{}", base, r.below(300), r.below(3)) }
+        }
         _ => format!("{}", r.below(u64::from(d.rows.max(d.cols)) + 3)),
     }
 }
@@ -213,7 +218,9 @@ pub fn gen_op(r: &mut Rng, d: Dim, out: &mut Vec<u8>, f: &Feat) {
             if f.resize_csi {
                 let a = param(r, d);
                 let b = param(r, d);
-                match r.below(4) {
+                match r.below(6) {
+                    4 => out.extend(format!("\x1b[8:{};{a};{b}t", r.below(3)).as_bytes()),
+                    5 => out.extend(format!("\x1b[8;{a}:{};{b}:{}t", r.below(9), r.below(9)).as_bytes()),
                     0 => out.extend(format!("\x1b[8;{a};{b}t").as_bytes()),
                     1 => out.extend(format!("\x1b[8;{a}t").as_bytes()),
                     2 => out.extend(b"\x1b[8t"),
@@ -257,7 +264,7 @@ pub fn gen_op(r: &mut Rng, d: Dim, out: &mut Vec<u8>, f: &Feat) {
             idiom_n(r, d, out, k);
         }
         76..=79 => {
-            let k = 78 + r.below(6);
+            let k = 78 + r.below(8);
             idiom_n(r, d, out, k);
         }
         _ => gen_text(r, out),
@@ -561,6 +568,35 @@ pub fn idiom_n(r: &mut Rng, d: Dim, out: &mut Vec<u8>, k: u64) {
             out.push(fin);
             gen_text(r, out);
         }
+        84 => {
+            // runs of blank cells that differ only in text-mode bits (same colours): an erase with a
+            // mode bit in the pen, then blanks with other mode bits right behind it, then text
+            let m1 = *r.pick(&["7", "1", "2", "3", "4", "1;7", "4;3"]);
+            let m2 = *r.pick(&["", "0", "27", "22", "1", "4", "7"]);
+            let col = if r.chance(1, 2) { format!("\x1b[4{}m", r.below(8)) } else { String::new() };
+            out.extend(format!("{col}\x1b[{m1}m\x1b[{}X\x1b[{}C", 1 + r.below(4), r.below(5)).as_bytes());
+            out.extend(format!("\x1b[{m2}m").as_bytes());
+            if r.chance(1, 2) {
+                out.extend(format!("\x1b[{}X", 1 + r.below(4)).as_bytes());
+            }
+            out.extend(format!("\x1b[{}C", 1 + r.below(6)).as_bytes());
+            if r.chance(2, 3) {
+                gen_text(r, out);
+            }
+        }
+        85 => {
+            // a line terminator (or another C0 control) INSIDE an open sequence, followed by a purely
+            // printable continuation: the chunk family cuts right behind such bytes
+            let c0 = *r.pick(&["\r", "\n", "\r\n", "\x08", "\t"]);
+            match r.below(5) {
+                0 => out.extend(format!("\x1b[{}{c0};{}H", 1 + r.below(u64::from(d.rows)), 1 + r.below(u64::from(d.cols))).as_bytes()),
+                1 => out.extend(format!("\x1b[3{c0}{}m", r.below(8)).as_bytes()),
+                2 => out.extend(format!("\x1b]0;hello{c0}world\x07").as_bytes()),
+                3 => out.extend(format!("\x1b]2;ab{c0}cd\x1b\\").as_bytes()),
+                _ => out.extend(format!("\x1bPq1{c0}23\x1b\\\x1b({c0}B").as_bytes()),
+            }
+            gen_text(r, out);
+        }
         _ => {}
     }
 }
@@ -721,7 +757,25 @@ pub fn fam_chunk(r: &mut Rng) -> Case {
     let mode = r.below(3);
     lines.push(format!("NEW {} {} {} 0", d.rows, d.cols, cap));
     lines.push("VNEW".into());
+    let mut b = b;
+    if r.chance(1, 4) {
+        idiom_n(r, d, &mut b, 85);
+    }
+    let mode = if r.chance(1, 6) { 3 } else { mode };
     let chunks: Vec<Vec<u8>> = match mode {
+        3 => {
+            // cut right behind every CR / LF
+            let mut res = vec![];
+            let mut curc = vec![];
+            for x in &b {
+                curc.push(*x);
+                if *x == b'\n' || *x == b'\r' {
+                    res.push(std::mem::take(&mut curc));
+                }
+            }
+            res.push(curc);
+            res
+        }
         0 => vec![b.clone()],
         1 => cut(r, &b, 1),
         _ => {
@@ -765,6 +819,19 @@ pub fn fam_sb(r: &mut Rng) -> Case {
             3 => {
                 let p = param(r, d);
                 lines.push(format!("P {}", hex(format!("\x1b[{p}S").as_bytes())));
+            }
+            5 if cap > usize::from(d.rows) + 1 && r.chance(1, 2) => {
+                // enough history, a scrolled-back view, then SU by more lines than the screen has
+                let mut b = vec![];
+                for i in 0..(3 * u64::from(d.rows) + 2) {
+                    b.extend(format!("h{i}\r\n").as_bytes());
+                }
+                lines.push(format!("P {}", hex(&b)));
+                lines.push(format!("SB {}", 1 + r.below(3)));
+                lines.push("DUMP".into());
+                let n = u64::from(d.rows) + r.below(4);
+                lines.push(format!("P {}", hex(format!("\x1b[{n}S").as_bytes())));
+                lines.push("DUMP".into());
             }
             4 if f.ris => {
                 let mut b = vec![];
@@ -872,9 +939,13 @@ pub fn fam_csi(r: &mut Rng) -> Case {
     match r.below(10) {
         0..=5 => {
             let fin = *r.pick(&['@', 'A', 'B', 'C', 'D', 'E', 'F', 'G', 'J', 'K', 'L', 'M', 'P', 'S', 'T', 'X', 'd', 'H', 'r', 'm', 'h', 'l', 't', 'n', 'c', 'p', 'q', 's', 'u', 'Z', 'I', 'b', 'f', 'g']);
-            let p = param(r, d);
+            let mut p = param(r, d);
             let q = param(r, d);
             let marker = *r.pick(&["", "", "", "?", ">", "!", " "]);
+            if fin == 't' && r.chance(2, 3) {
+                // window operations: the resize request and its neighbours, with and without sub-parameters
+                p = (*r.pick(&["8", "8", "8:0", "8:1", "8:2:3", "7", "9", "18", "08"])).to_string();
+            }
             match (marker, r.below(3)) {
                 ("!", _) | (" ", _) => op.extend(format!("\x1b[{p}{marker}{fin}").as_bytes()),
                 (_, 0) => op.extend(format!("\x1b[{marker}{p}{fin}").as_bytes()),
